@@ -605,6 +605,11 @@ def stream_malformed(r: Run, nrand):
     add('index-out-of-range', 'reject', 'barrier q[2];\n')
     add('index-out-of-range', 'reject', 'reset q[2];\n')
     add('index-out-of-range', 'reject', 'measure q[2] -> c[0];\n')
+    add('clbit-index-out-of-range', 'reject', 'measure q[0] -> c[2];\n')
+    add('clbit-index-out-of-range', 'reject', 'measure q[0] -> c[5];\n')
+    add('clbit-index-out-of-range', 'reject', 'measure r[1] -> c[2];\n')
+    add('clbit-index-out-of-range', 'reject', 'creg d[4];\nmeasure q[1] -> c[3];\n')
+    add('clbit-index-out-of-range', 'reject', 'creg d[1];\nmeasure q[1] -> d[1];\n')
     add('index-beyond-circuit', 'reject', 'h r[2];\n')
     add('index-beyond-circuit', 'reject', 'h r[7];\n')
     add('index-beyond-circuit', 'reject', 'CX q[0],r[5];\n')
